@@ -441,19 +441,23 @@ def feedge(index, rep, flow):
     rep.check(org == {"src:create_feed_food_from_kcals"}, rule, "round3:feed = feed the round-3 herd used",
               f"round 3 charges feed originating from {sorted(org)}, not the feed its herd object ate", loc=loc(PARAMS, st[0]))
     # every store to <name>.kcals is the feed slot of the bump applied to itself
-    writes = [s for s in walk_no_nested(fn) if isinstance(s, ast.Assign) and any(
-        norm_src(e) == f"{name}.kcals" for t in s.targets for e in ([t] if not isinstance(t, ast.Tuple) else t.elts))]
-    ok = True
     from .c03 import bump_slots
     from .core import bind_args
     bump_fn, slots = bump_slots(index)
-    for s in writes:
-        okw = isinstance(s.value, ast.Call) and dotted(s.value.func) == "self.increase_biofuels_then_feed" and isinstance(s.targets[0], ast.Tuple) \
-            and len(s.targets[0].elts) == len(slots)
+    inl_w = Inliner(fn)
+    ok = True
+    n_w = 0
+    for t_, v_ in inl_w.stores:           # every store to <name>.kcals, also as an element of tuple unpacking or through a kept tuple
+        if norm_src(t_) != f"{name}.kcals":
+            continue
+        n_w += 1
+        ve = inl_w.expr(v_)
+        okw = isinstance(ve, ast.Subscript) and isinstance(ve.slice, ast.Constant) and isinstance(ve.value, ast.Call) \
+            and dotted(ve.value.func) == "self.increase_biofuels_then_feed" and isinstance(ve.slice.value, int) and 0 <= ve.slice.value < len(slots)
         if okw:
-            bound = bind_args(s.value, bump_fn)
-            ks = [k_ for k_, e_ in enumerate(s.targets[0].elts) if norm_src(e_) == f"{name}.kcals"]
-            okw = len(ks) == 1 and slots[ks[0]][0] in bound and norm_src(bound[slots[ks[0]][0]]) == f"{name}.kcals"
+            bound = bind_args(ve.value, bump_fn)
+            k_ = ve.slice.value
+            okw = slots[k_][0] in bound and norm_src(bound[slots[k_][0]]) == inl_w.src(ast.parse(f"{name}.kcals", mode="eval").body)
         ok = ok and okw
     rep.check(ok, rule, "round3:feed only changed by the bump (feed slot in, feed slot out)",
               "the feed charged in round 3 is modified other than by the never-lowering bump", loc=loc(PARAMS, fn))
